@@ -73,3 +73,22 @@ Definition enc_sl_obs (o : sl_obs) : Z :=
   match o with YSample k => 10 + k | YStop => 1 | YBlocked => 2 | YNone => 0 | YRaise => 3 end.
 
 Definition enc_sl_run (evs : list sl_ev) : list Z := map enc_sl_obs (snd (sl_run sl_init evs)).
+
+(* ---- SyncLogger under threads (C05/SyncThreads.v) *)
+Require Import CF.C05.SyncThreads.
+
+Definition enc_tobs (o : tobs) : Z :=
+  match o with OYield k => 10 + k | OStop => 1 | OInGet => 2 | ONone => 0 | ORaise => 3 | ONoop => 4 end.
+
+Definition enc_qitem (i : qitem) : Z := match i with QSample k => 10 + k | QDisc => 1 end.
+
+Definition enc_tsl (s : tsl) : list Z :=
+  [b2z (t_conn s); match t_cons s with CIdle => 0 | CInGet => 1 end; Z.of_nat (t_pend s); zlen (t_queue s)]
+  ++ map enc_qitem (t_queue s).
+
+Fixpoint enc_sys_run (ls : list tsl) (evs : list sev) : list Z :=
+  match evs with
+  | [] => []
+  | e :: r => let '(l1, o) := sys_step ls e in
+              [enc_tobs o] ++ concat (map enc_tsl l1) ++ enc_sys_run l1 r
+  end.
